@@ -318,7 +318,8 @@ def headSpace (k : Cls) (l : List Char) : Bool := match l.head? with | some c =>
 
 /-- `put_line_comment(comment, full=...)` with `comment : str` (the deletion `None` is `commentDel`). -/
 def commentPut (k : Cls) (full : Bool) (tail comment : List Char) : PutRes :=
-  if comment.contains LF then .valueError
+  if comment.contains LF || comment.contains CR then .valueError      -- 'line comment cannot have newlines in it'
+  else if comment.contains NUL then .valueError                        -- '... null characters in it'
   else if full && (comment.dropWhile k.space).head? != some '#' then .valueError
   else
     let c1 := if full then comment
